@@ -186,6 +186,9 @@ def shards(tier, seed):
         n = len(pair_documents(tname, tier, seed))
         for lo in range(0, n, 2 * CHUNK):
             out.append((tier, seed, 'PAIR:' + tname, lo, min(lo + 2 * CHUNK, n)))
+    only = os.environ.get('C20_ONLY')        # developer aid: restrict a run to one schema (never used by MANIFEST commands)
+    if only:
+        out = [x for x in out if x[2] == only]
     return out
 
 
@@ -712,11 +715,15 @@ def analyse(name, doc):
                             gres.append(res(x))
                     st.ev += 3
                     st.traces += 3
+                    # the schema-side calls document namespaces=None as "the schema document's own declarations":
+                    # a schema document that binds a default namespace (variant nd) is therefore asked with the
+                    # explicit empty map, which is what the path-driven loops pass for a document without declarations
+                    sarg = {} if nsarg is None and name.endswith('.nd') else nsarg
                     try:
-                        found = schema.find(path, nsarg)
-                        fa = schema.findall(path, nsarg)
-                        fi = list(schema.iterfind(path, nsarg))
-                        rel = schema.find(path[1:], nsarg) if path[:1] == '/' and path[:2] != '//' else found
+                        found = schema.find(path, sarg)
+                        fa = schema.findall(path, sarg)
+                        fi = list(schema.iterfind(path, sarg))
+                        rel = schema.find(path[1:], sarg) if path[:1] == '/' and path[:2] != '//' else found
                     except Exception as e:      # noqa
                         disc('find', path, flabel, type(e).__name__, 'schema.find(%r) raises %r' % (path, e))
                         st.outcomes['find:exception'] += 1
@@ -771,7 +778,7 @@ def analyse(name, doc):
                         st.traces += 1
                         tag = lib_elems[sel[0]].tag
                         try:
-                            got = schema.get_element(tag, path, nsarg)
+                            got = schema.get_element(tag, path, sarg)
                         except Exception as e:      # noqa
                             got = e
                         x = govs[0]
